@@ -220,7 +220,7 @@ GROUPS = {
     "times": ("GenTimes.v", "TieTimes.v", ["tie_region_start", "tie_region_duration", "tie_region_end", "tie_make_region_args"]),
     "div": ("GenDiv.v", "TieDiv.v", ["tie_div_loop", "tie_div"]),
     "guards": ("GenGuards.v", "TieGuards.v", ["tie_join_guard", "tie_record_flag"]),
-    "reader": ("GenReader.v", "TieReader.v", ["tie_reader_params", "tie_lim_read", "tie_rec_read", "tie_fixed_read", "tie_ov_first", "tie_ov_next"]),
+    "reader": ("GenReader.v", "TieReader.v", ["tie_reader_params", "tie_lim_read", "tie_rec_read", "tie_fixed_read", "tie_ov_first", "tie_ov_next", "tie_lim_data"]),
     "loops": ("GenLoops.v", "TieLoops.v", ["tie_run_turn", "tie_stop_requested", "tie_tok_read", "tie_programs", "tie_fields"]),
 }
 
@@ -1109,6 +1109,17 @@ class ReaderPure(Pure):
     is its number of samples and nothing else may be done with its length; `self._cache.append(block)` extends the
     recorded data (the model keeps the cache concatenated)."""
     def expr(self, e, env, binds):
+        if isinstance(e, ast.Attribute) and ast.unparse(e) == "self._audio_source.data":
+            return V("d", "block")          # what the layer below exposes as recorded data (whole samples)
+        if isinstance(e, ast.BinOp) and isinstance(e.op, ast.Mult) and sorted([ast.unparse(e.left), ast.unparse(e.right)]) == ["self._bytes_per_sample", "self._max_samples"]:
+            return V("mx", "maxbytes")      # the sample budget expressed in bytes
+        if isinstance(e, ast.Subscript) and isinstance(e.slice, ast.Slice) and e.slice.lower is None and e.slice.step is None and e.slice.upper is not None:
+            a = self.expr(e.value, env, binds)
+            if a.ty == "block":
+                hi = self.expr(e.slice.upper, env, binds)
+                if hi.ty != "maxbytes":
+                    bad(e, "recorded data sliced by something else than the sample budget in bytes")
+                return V("(py_slice %s None (Some mx))" % a.text, "block")
         if isinstance(e, ast.Compare) and len(e.ops) == 1 and isinstance(e.ops[0], (ast.Is, ast.IsNot)):
             a = self.expr(e.left, env, binds)
             if a.ty == "block":
@@ -1296,7 +1307,7 @@ def gen_reader(repo):
     sp = Spec("reader_params_gen", [("block_dur", "F"), ("hop_dur", "optF"), ("max_read", "optF"), ("sr", "Z")], ret_reader_params)
     out.append("(* slice of AudioReader.__init__ and the wrapper constructors:\n" + ast.unparse(f) + "\n*)")
     out.append(Pure(f, sp, module=util).translate())
-    out[3] = "From AV Require Import Base.PyList Base.PyFloat Tok.Model IO.Reader IO.Layers."
+    out[3] = "From AV Require Import Base.PyList Base.PyFloat Tok.Model IO.Reader IO.Layers IO.Layers2."
     out.append("Section Lay.\nContext {S : Type}.\nVariable inner : Z -> option (list S).\n")
     classes = {n.name: n for n in util.body if isinstance(n, ast.ClassDef)}
 
@@ -1322,6 +1333,19 @@ def gen_reader(repo):
     sp.ret_type = "option (list S)"
     out.append(ReaderPure(m, sp, module=util, cls=c).translate())
     out.extend(gen_overlap(util))
+    c = classes.get("_Limiter")
+    dprop = [n for n in (c.body if c else []) if isinstance(n, ast.FunctionDef) and n.name == "data" and [ast.unparse(x) for x in n.decorator_list] == ["property"]]
+    if len(dprop) != 1:
+        raise TranslationError("_Limiter.data (property) not found exactly once")
+
+    def ret_block(tr, v, env, node):
+        if v.ty != "block":
+            bad(node, "_Limiter.data returns %s" % v.ty)
+        return v.text
+    sp = Spec("lim_data_gen", [], ret_block)
+    sp.extra_params = ["(mx : Z)", "(d : list S)"]
+    sp.ret_type = "list S"
+    out.append(ReaderPure(dprop[0], sp, module=util, cls=c).translate())
     out.append("End Lay.\n")
     return "\n".join(out)
 
